@@ -287,14 +287,23 @@ func (p *ParserZH) setStmtCurrentLine(s syntax.Statement, tk *syntax.Token) {
 	}
 }
 
+// currStartIdx - start of the current token; before the first token has been consumed
+// there is no current token yet and the position is the start of the text
+func (p *ParserZH) currStartIdx() int {
+	if p.TokenP1 == nil {
+		return 0
+	}
+	return p.TokenP1.StartIdx
+}
+
 // wrap 0x2250 InvalidSyntaxCurr - with current token's startIdx
 func (p *ParserZH) getInvalidSyntaxCurr() error {
-	startIdx := p.TokenP1.StartIdx
+	startIdx := p.currStartIdx()
 	return zerr.InvalidSyntax(startIdx)
 }
 
 func (p *ParserZH) getInvalidSyntaxPeek() error {
-	startIdx := p.TokenP1.StartIdx
+	startIdx := p.currStartIdx()
 	if p.TokenP2 != nil {
 		startIdx = p.TokenP2.StartIdx
 	}
@@ -303,7 +312,7 @@ func (p *ParserZH) getInvalidSyntaxPeek() error {
 }
 
 func (p *ParserZH) getUnexpectedIndentPeek() error {
-	startIdx := p.TokenP1.StartIdx
+	startIdx := p.currStartIdx()
 	if p.TokenP2 != nil {
 		startIdx = p.TokenP2.StartIdx
 	}
@@ -312,7 +321,7 @@ func (p *ParserZH) getUnexpectedIndentPeek() error {
 }
 
 func (p *ParserZH) getExprMustTypeIDPeek() error {
-	startIdx := p.TokenP1.StartIdx
+	startIdx := p.currStartIdx()
 	if p.TokenP2 != nil {
 		startIdx = p.TokenP2.StartIdx
 	}
